@@ -211,6 +211,10 @@ func (t *Tokenizer) tokenizeBuffer(buf []byte, last bool) {
 					t.handleNum(off)
 				case 't':
 					t.addToken(string(t.tmp))
+					if t.mode == colonMap {
+						// The token was a key, a colon has to follow.
+						t.byteError(off, colonMap, b)
+					}
 				}
 				if depth == 0 && (pending == 'n' || pending == 't') {
 					// The number or token is a complete document, look at the
@@ -333,6 +337,10 @@ func (t *Tokenizer) tokenizeBuffer(buf []byte, last bool) {
 					t.handleNum(off)
 				case 't':
 					t.addToken(string(t.tmp))
+					if t.mode == colonMap {
+						// The token was a key, a colon has to follow.
+						t.byteError(off, colonMap, b)
+					}
 				}
 				if depth == 0 && (pending == 'n' || pending == 't') {
 					// The number or token is a complete document, look at the
